@@ -20,7 +20,7 @@ def build(b, gdir, engine_srcs, name, opt='-O2', world_srcs=('wrap_generic.c',),
     I = os.path.join(core.ROOT, 'ilp32')
     base = ['gcc', '-m32', '-march=i686', '-std=gnu99', '-ffreestanding', '-nostdinc', '-fno-stack-protector', '-fno-pie', '-w',
             '-isystem', gcc_include(), '-idirafter', os.path.join(I, 'include')]
-    inc_w = ['-I' + os.path.join(core.REPO, 'include'), '-I' + os.path.join(core.REPO, 'src'), '-I' + os.path.join(core.ROOT, 'world')]
+    inc_w = [*core.lib_flags(), '-I' + os.path.join(core.ROOT, 'world')]
     inc_n = ['-I' + gdir, '-I' + os.path.join(core.ROOT, 'engine'), '-I' + os.path.join(core.ROOT, 'world')]
     cmds, objs = [], []
 
